@@ -860,7 +860,7 @@ def _long_case(rng):
         p["circuit"] = _rand_circuit(rng, p["circuit"]["n"], basis=True)
         p["shots"] = rng.randrange(1, 6)
     tasks = []
-    for _ in range(rng.randrange(65, 141)):
+    for _ in range(rng.choice([rng.randrange(65, 141), rng.randrange(65, 141), 127, 128, 129, 255, 256, 257, 511, 512, 513])):
         tasks.append(_sibling(rng, rng.choice(protos[:3]), n) if rng.random() < 0.85 else rng.choice(protos[3:]))
     return {"kind": "averaging", "seed": rng.randrange(2 ** 31), "tasks": tasks, "share": rng.choice(["none", "circuits", "both"])}
 
